@@ -149,8 +149,11 @@ def thread_family(r, tier):
     happ = W.Hosts((r"a\.com", leaf("wsgi", ["h0"], log)), (r".*\.org", leaf("wsgi", ["h1"], log)))
     hreqs = {"a": SV.AReq(headers=[("Host", "a.com")]), "org": SV.AReq(headers=[("Host", "x.org")]), "no": SV.AReq(headers=[("Host", "b.net")])}
     SV.wsgi_thread_pairs(r, "Hosts", happ, hreqs, [("a", "org"), ("a", "no"), ("no", "org")], files, bound=1 if tier == "quick" else 2)
+    alog = []
+    aapp = build("asgi", tree, alog)
+    SV.asgi_task_pairs(r, "Subpaths", aapp, reqs, pairs, bound=2)
     r.count("states", 1)
-    r.sample({"threads": "two requests on one Subpaths/Hosts object, line-level schedules"})
+    r.sample({"threads": "two requests on one Subpaths/Hosts object, line-level schedules (WSGI threads) / send-receive schedules (ASGI tasks)"})
 
 
 def run_shard(desc, tier):
